@@ -51,10 +51,12 @@ func HashToGroup(input, dst []byte) *Element {
 	uniform := expandXMD(input, dst, expLength)
 	u0 := field.New().HashToFieldElement([secLength]byte(uniform[:secLength]))
 	u1 := field.New().HashToFieldElement([secLength]byte(uniform[secLength : 2*secLength]))
-	q0 := SSWU(u0)
-	q1 := SSWU(u1)
+	// Map each point to secp256k1 first and add there with the complete formulas, as RFC 9380 section 3 writes it. Adding
+	// q0 and q1 on the isogenous curve with the affine chord formula is undefined when they share an x coordinate.
+	q0 := IsogenySecp256k13iso(SSWU(u0))
+	q1 := IsogenySecp256k13iso(SSWU(u1))
 
-	return IsogenySecp256k13iso(q0.addAffine3Iso2(q1))
+	return q0.Add(q1)
 }
 
 // EncodeToGroup returns a non-uniform mapping of the arbitrary input to an Element in the Group.
